@@ -686,9 +686,21 @@ fn check_sel_g<G: Grp>(c: &SelCase) -> Outcome {
         acc.check(got.as_ref().ok() == Some(exp), || format!("C20:{name}:set_cond"), || format!("set_cond({ctl:08x}) -> {:?} expected {}", got.as_ref().map(|b| hex(b)), hex(exp)));
         let got = guard(|| G::select(&pa, &pb, ctl).encode());
         acc.check(got.as_ref().ok() == Some(exp), || format!("C20:{name}:select"), || format!("select({ctl:08x}) -> {:?} expected {}", got.as_ref().map(|b| hex(b)), hex(exp)));
+        // the selected / copied value must be a complete copy: every internal coordinate is exercised by using it as an operand
+        // (the encoding alone does not read all of them)
+        let rsel = if ctl == 0 { &ra } else { &rb };
+        let exp_ops = (r.encode(&r.add(rsel, &ra)), r.encode(&r.double(rsel)), r.encode(&r.sub(&rb, rsel)), r.encode(&r.mul(&num_bigint::BigUint::from(5u32), rsel)));
+        let got = guard(|| { let x = G::select(&pa, &pb, ctl); (G::add(x, pa, 0).encode(), G::double(x, 0).encode(), G::sub(pb, x, 0).encode(), G::mul_small(x, 5, 0).encode()) });
+        acc.check(got.as_ref().ok() == Some(&exp_ops), || format!("C20:{name}:select_then_use"), || format!("select({ctl:08x}) used as an operand (x+a, 2x, b-x, 5x) -> {:?}", got.as_ref().map(|t| (hex(&t.0), hex(&t.1), hex(&t.2), hex(&t.3)))));
+        let got = guard(|| { let mut x = pa; G::set_cond(&mut x, &pb, ctl); (G::add(x, pa, 0).encode(), G::double(x, 0).encode(), G::sub(pb, x, 0).encode(), G::mul_small(x, 5, 0).encode()) });
+        acc.check(got.as_ref().ok() == Some(&exp_ops), || format!("C20:{name}:set_cond_then_use"), || format!("set_cond({ctl:08x}) used as an operand (x+a, 2x, b-x, 5x) -> {:?}", got.as_ref().map(|t| (hex(&t.0), hex(&t.1), hex(&t.2), hex(&t.3)))));
         let expn = if ctl == 0 { ea.clone() } else { r.encode(&r.neg(&ra)) };
         let got = guard(|| { let mut x = pa; G::set_condneg(&mut x, ctl); x.encode() });
         acc.check(got.as_ref().ok() == Some(&expn), || format!("C20:{name}:set_condneg"), || format!("set_condneg({ctl:08x}) -> {:?} expected {}", got.as_ref().map(|b| hex(b)), hex(&expn)));
+        let rneg = if ctl == 0 { ra.clone() } else { r.neg(&ra) };
+        let expu = (r.encode(&r.add(&rneg, &rb)), r.encode(&r.double(&rneg)));
+        let got = guard(|| { let mut x = pa; G::set_condneg(&mut x, ctl); (G::add(x, pb, 0).encode(), G::double(x, 0).encode()) });
+        acc.check(got.as_ref().ok() == Some(&expu), || format!("C20:{name}:set_condneg_then_use"), || format!("set_condneg({ctl:08x}) used as an operand -> {:?}", got.as_ref().map(|t| (hex(&t.0), hex(&t.1)))));
     }
     let eq = if ea == eb { 0xFFFFFFFFu32 } else { 0 };
     let got = guard(|| (G::equals(pa, pb), G::equals(pb, pa)));
